@@ -99,8 +99,8 @@ func runC17(t *testing.T, rng *rand.Rand, rec *sim.Rec, tier string, caseNo int)
 	time.Sleep(time.Duration(rng.Intn(3_000_000))*time.Second + time.Duration(rng.Intn(1000))*time.Millisecond)
 	kind := credKinds[caseNo%2]
 	secret := pick(rng, []string{"s3cret", "", "a much longer shared secret with spaces", "ключ", string([]byte{0, 1, 2, 255})})
-	user := pick(rng, []string{"alice", "", "bob:extra", "user with space", "1700000000"})
-	realm := pick(rng, []string{"verif.test", "", "пример"})
+	user := pick(rng, []string{"alice", "", "bob:extra", "user with space", "1700000000", "50%off", "%s%d%v", "a%"})
+	realm := pick(rng, []string{"verif.test", "", "пример", "re%alm", "100%25"})
 	dur := pick(rng, []time.Duration{-time.Hour, -time.Second, 0, time.Second, 5 * time.Second, time.Minute, 24 * time.Hour})
 	handler := kind.handler(secret)
 	username, password, err := kind.gen(secret, user, dur)
